@@ -21,10 +21,12 @@
      are covered separately by the escape round trip), the simplifications of __and__/__or__.
    - C07_escape_roundtrip (guard as strong as the recorded defect class):
        forall s rest, K_str s = false -> read_lit (str_lit s ++ rest) = Some (s, rest)
-     proved below only for `plain` strings (printable ASCII without quote and backslash);
-     quotes, NUL, control characters, harmless backslashes, characters >= 256 are exercised by
-     escape_roundtrip_samples (computation) and the literal cases of the check. *)
-From ISLA Require Import Unparse UnparseFacts ParseCore ParseCoreFacts ParseCoreMore.
+     proved below for `safe` strings (C07_escape_roundtrip_safe_partial: all characters 1..127 except
+     the backslash, i.e. printable ASCII INCLUDING the quote, control characters, newline, DEL; `safe`
+     implies K_str = false) and, older, for `plain` strings; still only exercised by
+     escape_roundtrip_samples (computation) and the literal cases of the check: NUL and characters
+     >= 256 (printed as \u{..}), harmless backslashes (not before a quote / the end). *)
+From ISLA Require Import Unparse UnparseFacts UnparseMore ParseCore ParseCoreFacts ParseCoreMore.
 From Coq Require Import String.
 Open Scope N_scope.
 
@@ -143,3 +145,23 @@ Example C07_print_parse_nonvacuous :
   wf_core (opaque pp_ex2) /\ atoms_opaque (opaque pp_ex2).
 Proof. exact print_parse_nonvacuous. Qed.
 Print Assumptions C07_print_parse_nonvacuous.
+
+(* ---------- string literals: quotes and control characters ---------- *)
+Theorem C07_escape_roundtrip_safe_partial : forall s rest,
+  safe s = true -> read_lit (str_lit s ++ rest) = Some (s, rest).
+Proof. exact escape_roundtrip_safe. Qed.
+Print Assumptions C07_escape_roundtrip_safe_partial.
+
+(* the guard lies inside the complement of the recorded class, and contains `plain` *)
+Theorem C07_safe_outside_K_str : forall s, safe s = true -> K_str s = false.
+Proof. exact safe_not_K. Qed.
+Print Assumptions C07_safe_outside_K_str.
+Theorem C07_plain_is_safe : forall s, plain s = true -> safe s = true.
+Proof. exact plain_safe. Qed.
+Print Assumptions C07_plain_is_safe.
+
+Example C07_escape_roundtrip_safe_nonvacuous :
+  safe [97; 34; 98; 10; 9; 127; 34; 34] = true /\ plain [97; 34; 98; 10; 9; 127; 34; 34] = false /\
+  read_lit (str_lit [97; 34; 98; 10; 9; 127; 34; 34] ++ [41]) = Some ([97; 34; 98; 10; 9; 127; 34; 34], [41]).
+Proof. exact escape_roundtrip_safe_nonvacuous. Qed.
+Print Assumptions C07_escape_roundtrip_safe_nonvacuous.
